@@ -42,9 +42,21 @@ pub trait VIterExt: Iterator + Sized {
             // `any` calls the closure on the items in order until it answers true: a false result means it answered false for every item
             r ==> exists|k: int| 0 <= k < self.remaining().len() && f.ensures((#[trigger] self.remaining()[k],), true),
             !r ==> forall|k: int| 0 <= k < self.remaining().len() ==> f.ensures((#[trigger] self.remaining()[k],), false);
+    // Iterator::cloned: assumes Clone::clone returns a value equal to the original (true of the derived / Copy Clone impls of dalek's scalars and points)
     fn v_cloned<'a, T: Clone + 'a>(self) -> (r: VSeqIter<T>) where Self: Iterator<Item = &'a T>
-        ensures r.items().len() == self.remaining().len();
-    fn v_fold<B, F: FnMut(B, Self::Item) -> B>(self, init: B, f: F) -> (r: B);
+        ensures r.items().len() == self.remaining().len(),
+            forall|k: int| 0 <= k < self.remaining().len() ==> #[trigger] r.items()[k] == *self.remaining()[k];
+    // Iterator::fold: the closure is applied to the items in order, threading the accumulator
+    fn v_fold<B, F: FnMut(B, Self::Item) -> B>(self, init: B, f: F) -> (r: B)
+        requires forall|acc: B, x: Self::Item| #[trigger] f.requires((acc, x))
+        ensures exists|accs: Seq<B>| fold_chain(accs, self.remaining(), init, f, r);
+}
+#[verifier::opaque]
+pub open spec fn fold_chain<B, T, F: FnMut(B, T) -> B>(accs: Seq<B>, items: Seq<T>, init: B, f: F, r: B) -> bool {
+    &&& accs.len() == items.len() + 1
+    &&& accs[0] == init
+    &&& accs[items.len() as int] == r
+    &&& forall|k: int| 1 <= k <= items.len() ==> f.ensures((accs[k - 1], items[k - 1]), #[trigger] accs[k])
 }
 impl<I: Iterator> VIterExt for I {
     #[verifier::external_body]
@@ -102,7 +114,8 @@ impl P {
 pub open spec fn min3(a: nat, b: nat, c: nat) -> nat { if a <= b && a <= c { a } else if b <= c { b } else { c } }
 #[verifier::external_body]
 pub fn v_izip3<A: IntoIterator, B: IntoIterator, C: IntoIterator>(a: A, b: B, c: C) -> (r: VSeqIter<(A::Item, B::Item, C::Item)>)
-    ensures r.items().len() == min3(into_iter_seq(a).len(), into_iter_seq(b).len(), into_iter_seq(c).len())
+    ensures r.items().len() == min3(into_iter_seq(a).len(), into_iter_seq(b).len(), into_iter_seq(c).len()),
+        forall|k: int| 0 <= k < r.items().len() ==> #[trigger] r.items()[k] == (into_iter_seq(a)[k], into_iter_seq(b)[k], into_iter_seq(c)[k])
 { unimplemented!() }
 pub broadcast proof fn lemma_interleave_index<T>(a: Seq<T>, b: Seq<T>, k: int)
     requires a.len() == b.len(), 0 <= k < 2 * a.len()
